@@ -18,6 +18,10 @@ CLAIMS = {
    technique="relational interval abstract interpretation of the automatic-flush recursion (re-entrancy infeasibility for all sizes), ordered-clock symbols for marker events, writer/reader JSON key and type agreement with path-sensitive 'always written' and 'reader fails without it' analyses",
    text="Decides necessary conditions for protocol-conformant programs to give accepted traces: for every evlen, payload size and jumbo size the flush inside ovni_ev_add/ovni_ev_add_jumbo happens at most once and never while its own OF[ OF] markers are appended (proved by infeasibility of the nested flush condition under the path constraints); markers are appended paired and with clocks in sampling order; every metadata key whose absence makes an emulator reader function fail is written by libovni on every path of thread init/free (or together with the key it accompanies) with a compatible JSON type; the emulator walks streams with the runtime's own ovni_ev_size. Not decided: that the emulator accepts every conformant program (behavioural over programs).",
    design_ref="§4 C02"),
+ "C03": dict(
+   technique="dominance / call-order analysis of the stream sort, order-abstraction of the heap comparator, abstract evaluation of the player's step/insert/pop protocol and of the clock chain (linear forms), bounded abstract evaluation of the intrusive heap on all heaps of up to 4 nodes",
+   text="Decides: streams are sorted by relative path after the directory walk on every successful path; stream_cmp inverts the order of last clocks; step_stream inserts exactly the streams that loaded an event, player_init steps every stream, player_step re-steps the previous stream before popping; lastclock = event clock + clock offset for every value, deltaclock = lastclock - firstclock, and that delta reaches prv->time through emu_ev / recorder_advance before the model sees the event; clock offsets go to the loom with the matching hostname. heap.h is evaluated through stream_cmp on all 120 insertion sequences of 1-4 streams with clocks in {1,2,3} and on 5 pop/step/re-insert scenarios: pops are non-decreasing, each stream exactly once, per-stream order kept. NOT decided: the heap's shape and order invariants for unbounded sizes ('every event exactly once' for arbitrary stream sets) - no shape analysis is in reach.",
+   design_ref="§4 C03"),
  "C04": dict(
    technique="typestate extraction: abstract path exploration of the thread handlers over the finite (thread_state x event) domain, compared with the documented FSM; error-propagation analysis to main",
    text="Exhaustive over the abstract domain: pre_thread() is explored (thread.c inlined, infrastructure calls non-deterministic) for all 256 value bytes x 6 thread states; accept/reject and the post-state of every accepting path are compared with the documented state machine; thread_set_state's published view (is_running, is_active, state and TID channels) is evaluated for all 6 states; model_ovni_finish is evaluated on all 1- and 2-thread state combinations and its failure is followed call site by call site to main's exit status. Not decided: that the timeline shows the state at every instant (depends on patch-bay propagation, see C06).",
